@@ -83,8 +83,12 @@ func runConcCase(o *Oracle, c *ConcCase, rep *Report) {
 	}
 	defer os.Remove(path)
 	o.Send("idx reset")
-	for _, r := range rows {
-		o.Send(rowLine(r))
+	{
+		var lines []string
+		for _, r := range rows {
+			lines = append(lines, rowLine(r))
+		}
+		o.SendMany(lines)
 	}
 	o.Send("idx build fast")
 	want := make([]string, len(c.Queries))
@@ -267,8 +271,12 @@ func runGrpcConc(o *Oracle, rep *Report, r *Rng, tier string) {
 	os.Remove(path)
 	buildIndexFile("mem", rows, path)
 	o.Send("idx reset")
-	for _, rw := range rows {
-		o.Send(rowLine(rw))
+	{
+		var lines []string
+		for _, rw := range rows {
+			lines = append(lines, rowLine(rw))
+		}
+		o.SendMany(lines)
 	}
 	o.Send("idx build fast")
 	var qs []QCase
@@ -428,8 +436,12 @@ func runAddCase(o *Oracle, c *AddCase, rep *Report) {
 	}
 	// the flushed index is the one a sequential insertion in id order produces (the model)
 	o.Send("idx reset")
-	for _, r := range rowsByID {
-		o.Send(rowLine(r))
+	{
+		var lines []string
+		for _, r := range rowsByID {
+			lines = append(lines, rowLine(r))
+		}
+		o.SendMany(lines)
 	}
 	o.Send("idx build fast")
 	idx, _, err := openIdx(path, false, -1)
